@@ -198,7 +198,8 @@ def kind_c(report, tier):
                         if not consistent(a, kwargs):
                             if entered or outcome == "returned" or outcome.startswith("OTHER"):
                                 bad = f"{desc}: outcome {outcome}, kernel entered {entered} time(s)"
-                        elif outcome.startswith("OTHER"):
+                        elif outcome.startswith("OTHER") and not outcome.startswith("OTHER:process"):
+                            # (a crash or hang of a call with consistent arguments is C05's business, not this property's)
                             bad = f"{desc}: outcome {outcome}"
                     if should_refuse:
                         nontrivial += 1
@@ -225,6 +226,7 @@ def isolated_call(counter, route, tm, evaluate, assignment, out_format, kwargs, 
     if pid == 0:
         os.close(r)
         counter.n = 0
+        signal.alarm(120)  # a kernel that never returns ends the child (SIGALRM): observed as a crash
         try:
             try:
                 if route == "tensor_method":
